@@ -45,6 +45,7 @@ MUTATIONS = [
     ("add_path", ("c", "L2", "a"), "O2", "D2"),
     ("add_path", ("a", "L1"), None, None),
     ("add_path", ("a", "L1", "L2"), "O2", None),
+    ("add_links", (("c", "L2", "a"), ("a", "L1", "b")), "gen"),
 ]
 READS = list(LOOKUPS)
 NONE, ALL = "-", "*"
